@@ -129,6 +129,8 @@ type BackendLog struct {
 	TLSErr    string
 	RdAtReturn, WrAtReturn int64 // server side: deadlines armed when Upgrade returned a connection
 	StateAtReturn          bool
+	ClosedAtReturn         bool // server side: was the accepted connection closed at the moment Upgrade returned its error
+	ClosedKnown            bool
 }
 
 // DialResult is what one Dial call produced.
@@ -947,6 +949,11 @@ func (h *hsRunner) upgradeSrv(hs *HSScn, w http.ResponseWriter, r *http.Request,
 		conn, err := u.Upgrade(w, r, nil)
 		if err != nil {
 			log.UpgradeErr = err.Error()
+			// the accepting end of the first connection pair is the server's transport (teardown closes
+			// every connection later, so the state has to be sampled now)
+			if sc := h.sim.acceptedConn(); sc != nil {
+				log.ClosedAtReturn, log.ClosedKnown = sc.IsClosed(), true
+			}
 			return
 		}
 		log.Upgraded = true
